@@ -73,13 +73,18 @@ def cli_case(rng, idx):
         s = io.StringIO()
         treeoutput.export(t, s)
         sents.append((s.getvalue(), len(trees.terminals(t))))
-    fmt = rng.choice(FORMATS)
+    fmt = rng.choice(FORMATS + ["tigerxml"])
     use_filter = rng.random() < 0.4
     fval = rng.randint(1, 4)
     kept = [x for x in sents if not (use_filter and x[1] < fval)]
     n = len(kept)
     natoms = rng.randint(1, 3)
     spec = "_".join(rng.choice(ATOMS) for _ in range(natoms))
+    if rng.random() < 0.25:
+        # a part that stays empty: it is still a complete file of its format
+        parts = spec.split("_")
+        parts.insert(rng.randint(0, len(parts)), rng.choice(["0#", "0%"]))
+        spec = "_".join(parts)
     with cli.Scratch() as sc:
         src = sc.write("src.export", "".join(x[0] for x in sents))
         extra = ["--trans", "filter_by_length", "--params", "filteroperator:lt", "filtervalue:%d" % fval] if use_filter else []
